@@ -15,7 +15,8 @@ RULE = ('generated models (1-3 signatures; tensor names with "_" or ";" separato
         'previous_calibration_result, then quantize().  Monitors: resolution trace compared per (operator, scope) between '
         'the two phases; boundary oracle on exceptions and on calibration keys vs operators the reference resolver selects.  '
         'distinct by (graph structure, recipe); non-trivial iff the recipe selected >=1 operator in some phase')
-ASSUMPTIONS = ['scopes are compared with the ";" separators stripped (both encodings concatenate the same names in the same order)']
+ASSUMPTIONS = ['decisions are paired by operator identity (subgraph, output tensor indices) captured at the scope computation of each phase; '
+               'if those hooks are missing, by scope with the ";" separators stripped']
 TT = models.TT
 MISSING = re.compile(r'not found in tensor_name_to_qsv|min and max must be provided|QSVs\) are required')
 
@@ -30,13 +31,14 @@ def setup(ctx):
 
 def pick_rules(rng, src):
   names = recipes.output_names(src)
+  in_names = [sg.tensors[int(i)].name.decode() for sg in src.subgraphs for i in sg.inputs]
   ops = recipes.op_names_in(src) or ['FULLY_CONNECTED']
   rules = []
   n = int(rng.integers(1, 4))
   for i in range(n):
-    rx, form = recipes.regex_family(rng, names, safe_only=False)
     r = rng.random()
-    sel = '*' if r < 0.55 else 'INPUT' if r < 0.6 else 'OUTPUT' if r < 0.65 else str(rng.choice(ops))
+    sel = '*' if r < 0.5 else 'INPUT' if r < 0.62 else 'OUTPUT' if r < 0.67 else str(rng.choice(ops))
+    rx, form = recipes.regex_family(rng, in_names if (sel == 'INPUT' or (sel == '*' and rng.random() < 0.25)) else names, safe_only=False)
     name = str(rng.choice(recipes.SRQ)) if (i == 0 or rng.random() < 0.5) else str(rng.choice(recipes.GOOD))
     rules.append((rx, sel, name, form))
   return rules
@@ -122,8 +124,9 @@ def run_case(ctx, case, rng):
     selected_any = False
     if ctx.trace_on:
       dec = {'calibrate': {}, 'quantize': {}}
-      for ph, op, scope, alg in trace.TRACE:
-        dec[ph][(op, scope.replace(';', ''))] = alg != 'no_quantize'
+      for ph, op, scope, alg, ident in trace.TRACE:
+        key = (op, ident) if (trace.OP_IDENTITY[0] and ident is not None) else (op, scope.replace(';', ''))
+        dec[ph][key] = alg != 'no_quantize'
       both = set(dec['calibrate']) & set(dec['quantize'])
       ctx.count('decisions_compared', len(both))
       for f in forms:
@@ -137,7 +140,7 @@ def run_case(ctx, case, rng):
         k = dis[0]
         ctx.violation('phases_disagree_on_operator',
                       dict(feats, honoured_by='calibration_only' if dec['calibrate'][k] else 'quantization_only'),
-                      dict(detail, operator=k[0], scope=k[1], n_disagreements=len(dis)))
+                      dict(detail, operator=k[0], scope_or_identity=str(k[1]), n_disagreements=len(dis)))
     # ---- boundary oracle: calibration keys vs operators the reference resolver selects
     if cal is not None:
       if True:
